@@ -177,6 +177,46 @@ def r3(ctx: Ctx) -> None:
                 rest = evs[i + 1:]
                 upd = [x for x in rest if x.kind == "call" and calls_target(x, UPD)]
                 ok = len(upd) == 1 and kw(upd[0], "execution_logs", 0) == e.term
+                if not ok:
+                    # the round's result goes (also) somewhere else: to another routine of the simulator, or into a list that is
+                    # handed over later -- another way of settling, which this rule does not follow
+                    others = [x for x in rest if x.kind == "call" and not calls_target(x, UPD) and x.name not in ("len", "executed_order", "isinstance") and not x.name.startswith("_trigger_event")
+                              and any(a == e.term for a in list(x.args) + [v for _, v in x.kwargs])]
+                    batched = [u for u in upd if kw(u, "execution_logs", 0) is not None and kw(u, "execution_logs", 0) != e.term and strip_ver(kw(u, "execution_logs", 0))[0] == "sym"]
+                    folded = [x.data.get("target", "") for x in rest if x.kind == "note" and x.data.get("what") == "inline" and x.data.get("target", "").startswith("Simulator.") and x.data.get("target") != UPD]
+                    if folded and not others:
+                        class _F:  # noqa: N801
+                            name = folded[0]
+                        others = [_F()]  # type: ignore[list-item]
+                    coll = [x for x in others if getattr(x, "kind", None) == "call" and x.name in ("extend", "append") and x.recv is not None]
+                    if coll and not batched:
+                        # the fills are put into a list: telling anybody before that list reached the holdings update is wrong whatever else happens
+                        told = [k_ for k_, x in enumerate(rest) if x.kind == "call" and x.name == "executed_order" or (x.kind == "loop" and any(y.name == "executed_order" for bp_ in x.paths for y in calls(bp_)))]
+                        applied = [k_ for k_, x in enumerate(rest) if x.kind == "call" and calls_target(x, UPD)]
+                        def _decided_empty(L: Term) -> bool:
+                            from ..kit import nf_cmp
+                            from ..terms import Unrecognised, cmp_nf
+
+                            ln = ("call", ("name", "len"), (strip_ver(L),), (), None)
+                            for c_, pol_, _n in holder.conds:
+                                try:
+                                    nf = nf_cmp(strip_ver(c_) if pol_ else ("not", strip_ver(c_)), integer=True)
+                                except Unrecognised:
+                                    continue
+                                if nf in (cmp_nf("==", ln, ("const", 0), integer=True), cmp_nf("<=", ln, ("const", 0), integer=True)):
+                                    return True
+                            return False
+
+                        if told and not applied and _decided_empty(coll[0].recv):
+                            continue  # the list the fills went into was found empty afterwards: the round made no fill, there is nothing to apply and nobody is told
+                        if told and (not applied or min(told) < min(applied)):
+                            ctx.violated(f, e.node, "result of the matching round is handed whole to the holdings update", f"_update_agents_for_execution(execution_logs={short(e.term)}) once, before anybody is told",
+                                         f"the fills are put into {short(coll[0].recv)} and the parties are told ({'no holdings update on this path' if not applied else 'before the holdings update'}): a call back sees holdings without its own fill")
+                            continue
+                    if others or batched:
+                        what = f"handed to {others[0].name}()" if others else f"collected in {short(kw(batched[0], 'execution_logs', 0))} and applied from there"
+                        ctx.unrec(f, e.node, "result of the matching round is handed whole to the holdings update", f"the fills are {what}: whether every fill is applied once, before anybody is told, is not decided on this form")
+                        continue
                 ctx.check(ok, f, e.node, "result of the matching round is handed whole to the holdings update", f"_update_agents_for_execution(execution_logs={short(e.term)}) once",
                           "; ".join(f"execution_logs={short(kw(u, 'execution_logs', 0))}" for u in upd) or "no update call")
                 if not upd:
